@@ -316,7 +316,12 @@ def run_faults(spec, ctx):
                         ncalls = f.count
                         calls = list(f.log)
                     if r0.exc is not None or r0.status not in (200, 304):
-                        raise AssertionError('fault-free run of %s gave %s %r' % (path, r0.status, r0.exc))
+                        try:
+                            ctx.mismatch('file-not-served', 'GET %r without any fault answered %s %r' % (path, r0.status, r0.exc),
+                                         {'segs': segs, 'which': which})
+                        except Exception as e:
+                            ctx.classify_exc(e, {'segs': segs, 'which': which}, 'path')
+                        continue
                     for n in range(1, ncalls + 1):
                         for err in ERRNOS:
                             case = {'segs': segs, 'which': which, 'fault_at': n, 'call': calls[n - 1], 'errno': errno.errorcode[err],
